@@ -599,36 +599,68 @@ theorem eom_commit {s : SeqState} {n : ChName} {f : ChanState → CRes} {b : Boo
       rw [hsame.modeOf m, hm he m]
     · rw [h2, (hfr _).1, hfrw.1]
 
+theorem validateChannel_modeOf {s : SeqState} {n : ChName} {c : ChanState}
+    (hv : s.validateChannel n false = .ok c) : modeOf s n = some c.inEomMode ∧ s.getChan n = some c := by
+  unfold SeqState.validateChannel at hv
+  unfold modeOf
+  cases hgc : s.getChan n with
+  | none => rw [hgc] at hv; cases hv
+  | some c0 =>
+    rw [hgc] at hv
+    simp only [Bool.false_and, Bool.false_eq_true, if_false] at hv
+    injection hv with hv
+    subst hv
+    exact ⟨rfl, rfl⟩
+
 theorem enableEom_step {s : SeqState} {n : ChName} {e : EomIn}
     (hok : (stepRaw s (.enableEom n e)).err = none) :
     SameX s (stepRaw s (.enableEom n e)).st ∧
     (∀ m, modeOf (stepRaw s (.enableEom n e)).st m
         = if m = n then (modeOf s m).map (fun _ => true) else modeOf s m) ∧
-    ∃ e', (stepRaw s (.enableEom n e)).st.calls = s.calls ++ [.enableEom n e'] := by
+    (∃ e', (stepRaw s (.enableEom n e)).st.calls = s.calls ++ [.enableEom n e']) ∧
+    modeOf s n = some false ∧ s.measured = none ∧
+    ∃ c, s.getChan n = some c ∧ c.cfg.eom.isSome = true ∧ ∃ d, processEomParams c e = .ok d := by
   simp only [stepRaw] at hok ⊢
-  repeat' split at hok
-  all_goals first
-    | (simp [fail] at hok; done)
-    | skip
-  all_goals
-    repeat' split
-    all_goals first
-      | (simp_all; done)
-      | skip
-  all_goals
-    unfold enableEomCommit at hok ⊢
-    simp only at hok ⊢
-    have := eom_commit (s := s) (n := n) (b := true)
-      (hf := fun c => enableEom_sets _ c _ _ _ _ _) (hr := ?_) (hfr := ?_) hok
-    · exact ⟨this.1, this.2.1, ⟨_, this.2.2⟩⟩
-    · intro s1
-      repeat' split
-      all_goals first
-        | exact SameR_phaseShift _ _ _ _ | exact SameR_fail _ _ | exact SameR_done (Same.rfl' _)
-    · intro s1
-      repeat' split
-      all_goals first
-        | exact Fr_phaseShift _ _ _ _ | exact Fr_fail _ _ | exact Fr_done ⟨rfl, rfl, rfl⟩
+  by_cases g0 : s.measured.isSome = true
+  · rw [if_pos g0] at hok; simp [fail] at hok
+  · rw [if_neg g0] at hok ⊢
+    cases hv : s.validateChannel n false with
+    | error er => rw [hv] at hok; simp [fail] at hok
+    | ok c =>
+      rw [hv] at hok
+      simp only at hok ⊢
+      by_cases g1 : c.inEomMode = true
+      · rw [if_pos g1] at hok; simp [fail] at hok
+      · rw [if_neg g1] at hok ⊢
+        by_cases g2 : c.cfg.eom.isNone = true
+        · rw [if_pos g2] at hok; simp [fail] at hok
+        · rw [if_neg g2] at hok ⊢
+          cases hp : processEomParams c e with
+          | error er => rw [hp] at hok; simp [fail] at hok
+          | ok detOff =>
+            rw [hp] at hok
+            simp only at hok ⊢
+            unfold enableEomCommit at hok ⊢
+            simp only at hok ⊢
+            have := eom_commit (s := s) (n := n) (b := true)
+              (hf := fun c => enableEom_sets _ c _ _ _ _ _) (hr := ?_) (hfr := ?_) hok
+            · obtain ⟨hm1, hg1⟩ := validateChannel_modeOf hv
+              refine ⟨this.1, this.2.1, ⟨_, this.2.2⟩, ?_, ?_, c, hg1, ?_, detOff, hp⟩
+              · rw [hm1]; simpa using g1
+              · cases hm : s.measured with
+                | none => rfl
+                | some x => rw [hm] at g0; simp at g0
+              · cases he : c.cfg.eom with
+                | none => rw [he] at g2; simp at g2
+                | some x => rfl
+            · intro s1
+              repeat' split
+              all_goals first
+                | exact SameR_phaseShift _ _ _ _ | exact SameR_fail _ _ | exact SameR_done (Same.rfl' _)
+            · intro s1
+              repeat' split
+              all_goals first
+                | exact Fr_phaseShift _ _ _ _ | exact Fr_fail _ _ | exact Fr_done ⟨rfl, rfl, rfl⟩
 
 theorem eom_bind {s : SeqState} {n : ChName} {f : ChanState → CRes} {b : Bool}
     {g : SeqState → Raw} (hf : ∀ c, Sets b c (f c)) (hr : ∀ s1, SameR s1 (g s1))
@@ -656,7 +688,8 @@ theorem disableEom_step {s : SeqState} {n : ChName} {corr : Bool}
     SameX s (stepRaw s (.disableEom n corr)).st ∧
     (∀ m, modeOf (stepRaw s (.disableEom n corr)).st m
         = if m = n then (modeOf s m).map (fun _ => false) else modeOf s m) ∧
-    (stepRaw s (.disableEom n corr)).st.calls = s.calls ++ [.disableEom n corr] := by
+    (stepRaw s (.disableEom n corr)).st.calls = s.calls ++ [.disableEom n corr] ∧
+    modeOf s n = some true ∧ s.measured = none := by
   simp only [stepRaw] at hok ⊢
   obtain ⟨h1, h2, h3⟩ := store_ok' hok
   -- the call before it is stored
@@ -681,7 +714,7 @@ theorem disableEom_step {s : SeqState} {n : ChName} {corr : Bool}
           else done s1) →
       R.err = none →
       SameX s R.st ∧ (∀ m, modeOf R.st m = if m = n then (modeOf s m).map (fun _ => false) else modeOf s m) ∧
-        R.st.calls = s.calls := by
+        R.st.calls = s.calls ∧ modeOf s n = some true ∧ s.measured = none := by
     intro R hR herr
     by_cases g0 : s.measured.isSome = true
     · rw [if_pos g0] at hR; subst hR; simp [fail] at herr
@@ -695,8 +728,15 @@ theorem disableEom_step {s : SeqState} {n : ChName} {corr : Bool}
         · rw [if_pos g1] at hR; subst hR; simp [fail] at herr
         · rw [if_neg g1] at hR
           subst hR
-          refine eom_bind (s := s) (n := n) (b := false)
+          have hmode : modeOf s n = some true := by
+            rw [(validateChannel_modeOf hv).1]; simpa using g1
+          have hmeas : s.measured = none := by
+            cases hm : s.measured with
+            | none => rfl
+            | some x => rw [hm] at g0; simp at g0
+          have := eom_bind (s := s) (n := n) (b := false)
             (hf := fun c => disableEom_sets _ c _) (hr := ?_) (hfr := ?_) herr
+          · exact ⟨this.1, this.2.1, this.2.2, hmode, hmeas⟩
           · intro s1
             repeat' split
             all_goals first
@@ -705,8 +745,8 @@ theorem disableEom_step {s : SeqState} {n : ChName} {corr : Bool}
             repeat' split
             all_goals first
               | exact Fr_phaseShift _ _ _ _ | exact Fr_fail _ _ | exact Fr_done ⟨rfl, rfl, rfl⟩
-  obtain ⟨i1, i2, i3⟩ := inner _ rfl h1
-  refine ⟨SameX.trans i1 h3.toX, ?_, ?_⟩
+  obtain ⟨i1, i2, i3, i4, i5⟩ := inner _ rfl h1
+  refine ⟨SameX.trans i1 h3.toX, ?_, ?_, i4, i5⟩
   · intro m; exact (h3.modeOf m).trans (i2 m)
   · exact h2.trans (congrArg (· ++ [Op.disableEom n corr]) i3)
 
@@ -715,7 +755,9 @@ theorem modifyEom_step {s : SeqState} {n : ChName} {e : EomIn}
     SameX s (stepRaw s (.modifyEom n e)).st ∧
     (∀ m, modeOf (stepRaw s (.modifyEom n e)).st m
         = if m = n then (modeOf s m).map (fun _ => true) else modeOf s m) ∧
-    ∃ e', (stepRaw s (.modifyEom n e)).st.calls = s.calls ++ [.modifyEom n e'] := by
+    (∃ e', (stepRaw s (.modifyEom n e)).st.calls = s.calls ++ [.modifyEom n e']) ∧
+    modeOf s n = some true ∧ s.measured = none ∧
+    ∃ c, s.getChan n = some c ∧ ∃ d, processEomParams c e = .ok d := by
   simp only [stepRaw] at hok ⊢
   by_cases g0 : s.measured.isSome = true
   · rw [if_pos g0] at hok; simp [fail] at hok
@@ -763,7 +805,23 @@ theorem modifyEom_step {s : SeqState} {n : ChName} {e : EomIn}
                   else done s2)
                 (hf := fun c => enableEom_sets _ c _ _ _ _ _) (hr := ?_) (hfr := ?_) hok
               · obtain ⟨t1, t2, t3⟩ := this
-                refine ⟨SameX.trans hx t1, ?_, ⟨{ e with optimal := detOff }, ?_⟩⟩
+                have hmode : modeOf s n = some true := by
+                  unfold SeqState.validateChannel at hv
+                  unfold modeOf
+                  cases hgc : s.getChan n with
+                  | none => rw [hgc] at hv; cases hv
+                  | some c0 =>
+                    rw [hgc] at hv
+                    simp only [Bool.false_and, Bool.false_eq_true, if_false] at hv
+                    injection hv with hv
+                    subst hv
+                    simpa using g1
+                have hmeas : s.measured = none := by
+                  cases hm0 : s.measured with
+                  | none => rfl
+                  | some x => rw [hm0] at g0; simp at g0
+                refine ⟨SameX.trans hx t1, ?_, ⟨{ e with optimal := detOff }, ?_⟩, hmode, hmeas, c,
+                  (validateChannel_modeOf hv).2, detOff, hp⟩
                 · intro m
                   have := t2 m
                   rw [hm he m] at this
@@ -774,15 +832,515 @@ theorem modifyEom_step {s : SeqState} {n : ChName} {e : EomIn}
                 · have hc : s1.calls = s.calls := by rw [← hs1]; exact hfrw.1
                   exact t3.trans (by rw [hc])
               · intro s2
-                simp only
                 repeat' split
                 all_goals first
                   | exact SameR_phaseShift _ _ _ _ | exact SameR_fail _ _ | exact SameR_done (Same.rfl' _)
               · intro s2
-                simp only
                 repeat' split
                 all_goals first
                   | exact Fr_phaseShift _ _ _ _ | exact Fr_fail _ _ | exact Fr_done ⟨rfl, rfl, rfl⟩
+
+/-! ### Measurement, declarations -/
+
+theorem measure_step {s : SeqState} {b : Basis} (hok : (stepRaw s (.measure b)).err = none) :
+    (stepRaw s (.measure b)).st = { s with measured := some b, calls := s.calls ++ [.measure b] } ∧
+    s.measured = none ∧ measBasisOk s b = true := by
+  simp only [stepRaw] at hok ⊢
+  obtain ⟨h1, _, _⟩ := store_ok' hok
+  by_cases g0 : s.measured.isSome = true
+  · rw [if_pos g0] at h1; simp [fail] at h1
+  · rw [if_neg g0] at h1 ⊢
+    by_cases g1 : (!measBasisOk s b) = true
+    · rw [if_pos g1] at h1; simp [fail] at h1
+    · rw [if_neg g1]
+      refine ⟨rfl, ?_, by simpa using g1⟩
+      cases hm : s.measured with
+      | none => rfl
+      | some x => rw [hm] at g0; simp at g0
+
+theorem getChan_append {s s' : SeqState} {c : ChanState} (h : s'.chans = s.chans ++ [c]) (m : ChName) :
+    s'.getChan m =
+      match s.getChan m with
+      | some c0 => some c0
+      | none => if c.name = m then some c else none := by
+  unfold SeqState.getChan
+  rw [h]
+  simp only [List.find?_append]
+  cases s.chans.find? (·.name == m) with
+  | some c0 => rfl
+  | none =>
+    simp only [Option.none_or, List.find?_cons, List.find?_nil]
+    by_cases hn : c.name = m
+    · simp [hn]
+    · have : (c.name == m) = false := by simpa using hn
+      simp [hn, this]
+
+theorem addChannel_chans (s : SeqState) (c : ChanState) : (s.addChannel c).chans = s.chans ++ [c] := by
+  unfold SeqState.addChannel SeqState.ensureBasis
+  simp only
+  repeat' split
+  all_goals rfl
+
+/-- Registering a channel: existing names resolve as before, the new name (if it was free) to
+the new channel. -/
+theorem addChannel_getChan (s : SeqState) (c : ChanState) (m : ChName) :
+    (s.addChannel c).getChan m =
+      match s.getChan m with
+      | some c0 => some c0
+      | none => if c.name = m then some c else none :=
+  getChan_append (addChannel_chans s c) m
+
+theorem freshChan_mode (name : ChName) (chId : Nat) (cfg : ChanCfg) (qs : List Nat) (w : Bool) (a b : Rat) :
+    (SeqState.freshChan name chId cfg qs w a b).inEomMode = false := rfl
+
+/-- Mode table after a channel named `nm` (not in EOM mode) has been registered. -/
+def extMode (old : Option Bool) (nm m : ChName) : Option Bool :=
+  match old with
+  | some b => some b
+  | none => if nm = m then some false else none
+
+theorem addChannel_modeOf (s : SeqState) (c : ChanState) (hc : c.inEomMode = false) (m : ChName) :
+    modeOf (s.addChannel c) m = extMode (modeOf s m) c.name m := by
+  unfold modeOf extMode
+  rw [addChannel_getChan]
+  cases s.getChan m with
+  | some c0 => rfl
+  | none =>
+    simp only [Option.map_none]
+    split
+    · simp [hc]
+    · rfl
+
+/-- A successful declaration: the new name (if free) resolves to a channel that is not in EOM
+mode, every other name as before. -/
+theorem declare_step {s : SeqState} {name : ChName} {chId : Nat} {init : Option (List Nat)}
+    (hok : (stepRaw s (.declare name chId init)).err = none) (m : ChName) :
+    modeOf (stepRaw s (.declare name chId init)).st m = extMode (modeOf s m) name m := by
+  simp only [stepRaw] at hok ⊢
+  repeat' split at hok
+  all_goals first
+    | (simp [fail] at hok; done)
+    | skip
+  all_goals
+    repeat' split
+    all_goals first
+      | (simp_all; done)
+      | skip
+  all_goals
+    obtain ⟨_, _, h3⟩ := store_ok' hok
+    first
+      | (rw [h3.modeOf m]
+         exact addChannel_modeOf s _ (freshChan_mode _ _ _ _ _ _ _) m)
+      | (rw [h3.modeOf m, (SameR_targetCore _ _ _).modeOf m]
+         exact addChannel_modeOf s _ (freshChan_mode _ _ _ _ _ _ _) m)
+
+theorem configDetMap_step {s : SeqState} {dmmId : Nat} {w1 w2 : Rat}
+    (hok : (stepRaw s (.configDetMap dmmId w1 w2)).err = none) :
+    ∃ nm : ChName, ∀ m, modeOf (stepRaw s (.configDetMap dmmId w1 w2)).st m = extMode (modeOf s m) nm m := by
+  simp only [stepRaw] at hok ⊢
+  repeat' split at hok
+  all_goals first
+    | (simp [fail] at hok; done)
+    | skip
+  all_goals
+    repeat' split
+    all_goals first
+      | (simp_all; done)
+      | skip
+  all_goals
+    obtain ⟨_, _, h3⟩ := store_ok' hok
+    refine ⟨ChName.dmm dmmId (List.filter (fun c => match c.name with
+      | ChName.dmm i _ => i == dmmId | _ => false) s.chans).length, fun m => ?_⟩
+    rw [h3.modeOf m]
+    exact addChannel_modeOf s _ (freshChan_mode _ _ _ _ _ _ _) m
+
+/-! ### The EOM mode of a concrete sequence can be read off its call log
+(what `is_in_eom_mode` does once the sequence is parametrized) -/
+
+/-- The latest enable/disable mark of channel `m` in a call log (`false` if none). -/
+def markOf (calls : List Op) (m : ChName) : Bool := (calls.reverse.findSome? (eomMark m)).getD false
+
+theorem markOf_snoc (calls : List Op) (op : Op) (m : ChName) :
+    markOf (calls ++ [op]) m = (eomMark m op).getD (markOf calls m) := by
+  unfold markOf
+  simp only [List.reverse_append, List.reverse_cons, List.reverse_nil, List.nil_append, List.cons_append,
+    List.findSome?_cons]
+  cases eomMark m op <;> rfl
+
+/-- Every declared channel is in EOM mode iff the log says so; an undeclared name has no mark. -/
+def PreInv (s : SeqState) : Prop :=
+  ∀ m, (modeOf s m = none ∧ markOf s.calls m = false) ∨ modeOf s m = some (markOf s.calls m)
+
+theorem preInv_init (dev : Device) (nQ : Nat) : PreInv (SeqState.init dev nQ) := by
+  intro m; left; exact ⟨rfl, rfl⟩
+
+/-- Calls that are recorded (everything except the read-only queries). -/
+def building : Op → Bool
+  | .getDuration .. | .estimate .. | .phaseRef .. => false
+  | _ => true
+
+theorem preInv_same {s s' : SeqState} {op : Op} (hi : PreInv s) (hm : ∀ m, modeOf s' m = modeOf s m)
+    (hc : s'.calls = s.calls ++ [op]) (hmark : ∀ m, eomMark m op = none) : PreInv s' := by
+  intro m
+  rw [hm m, hc, markOf_snoc, hmark m]
+  exact hi m
+
+theorem preInv_ext {s s' : SeqState} {op : Op} {nm : ChName} (hi : PreInv s)
+    (hm : ∀ m, modeOf s' m = extMode (modeOf s m) nm m)
+    (hc : s'.calls = s.calls ++ [op]) (hmark : ∀ m, eomMark m op = none) : PreInv s' := by
+  intro m
+  rw [hm m, hc, markOf_snoc, hmark m]
+  simp only [Option.getD_none]
+  unfold extMode
+  rcases hi m with ⟨h1, h2⟩ | h1
+  · rw [h1, h2]
+    by_cases hn : nm = m
+    · right; simp [hn]
+    · left; simp [hn]
+  · rw [h1]; right; rfl
+
+theorem preInv_step {s : SeqState} {op : Op} (hi : PreInv s) (hok : (stepRaw s op).err = none)
+    (hb : building op = true) : PreInv (stepRaw s op).st := by
+  cases op with
+  | declare name chId init =>
+    exact preInv_ext hi (fun m => declare_step hok m) (stepRaw_calls rfl hok).1 (fun m => rfl)
+  | configDetMap id w1 w2 =>
+    obtain ⟨nm, hnm⟩ := configDetMap_step hok
+    exact preInv_ext hi hnm (stepRaw_calls rfl hok).1 (fun m => rfl)
+  | target qs n =>
+    exact preInv_same hi (fun m => (stepRaw_same rfl).modeOf m) (stepRaw_calls rfl hok).1 (fun m => rfl)
+  | add p n proto =>
+    exact preInv_same hi (fun m => (stepRaw_same rfl).modeOf m) (stepRaw_calls rfl hok).1 (fun m => rfl)
+  | addDmm p n proto =>
+    exact preInv_same hi (fun m => (stepRaw_same rfl).modeOf m) (stepRaw_calls rfl hok).1 (fun m => rfl)
+  | addEom n dur ph po proto corr fs fe ref =>
+    exact preInv_same hi (fun m => (stepRaw_same rfl).modeOf m) (stepRaw_calls rfl hok).1 (fun m => rfl)
+  | delay d n atRest =>
+    exact preInv_same hi (fun m => (stepRaw_same rfl).modeOf m) (stepRaw_calls rfl hok).1 (fun m => rfl)
+  | align chs atRest =>
+    exact preInv_same hi (fun m => (stepRaw_same rfl).modeOf m) (stepRaw_calls rfl hok).1 (fun m => rfl)
+  | phaseShift phi qs b =>
+    exact preInv_same hi (fun m => (stepRaw_same rfl).modeOf m) (stepRaw_calls rfl hok).1 (fun m => rfl)
+  | measure b =>
+    obtain ⟨h1, _, _⟩ := measure_step hok
+    rw [h1]
+    exact preInv_same (s' := { s with measured := some b, calls := s.calls ++ [.measure b] }) hi
+      (fun m => rfl) rfl (fun m => rfl)
+  | enableEom n e =>
+    obtain ⟨_, hm, ⟨e', hc⟩, hold, _⟩ := enableEom_step hok
+    intro m
+    rw [hm m, hc, markOf_snoc]
+    by_cases hmn : m = n
+    · subst hmn
+      right
+      simp [eomMark, hold]
+    · have : eomMark m (Op.enableEom n e') = none := by
+        simp only [eomMark]; rw [if_neg (fun h => hmn h.symm)]
+      rw [if_neg hmn, this]
+      exact hi m
+  | modifyEom n e =>
+    obtain ⟨_, hm, ⟨e', hc⟩, hold, _⟩ := modifyEom_step hok
+    intro m
+    rw [hm m, hc, markOf_snoc]
+    have hmk : eomMark m (Op.modifyEom n e') = none := rfl
+    rw [hmk]
+    by_cases hmn : m = n
+    · subst hmn
+      right
+      simp only [if_true, hold, Option.map_some, Option.getD_none]
+      rcases hi m with ⟨h1, _⟩ | h1
+      · rw [hold] at h1; cases h1
+      · rw [hold] at h1; injection h1 with h1; rw [← h1]
+    · rw [if_neg hmn]; exact hi m
+  | disableEom n corr =>
+    obtain ⟨_, hm, hc, hold, _⟩ := disableEom_step hok
+    intro m
+    rw [hm m, hc, markOf_snoc]
+    by_cases hmn : m = n
+    · subst hmn
+      right
+      simp [eomMark, hold]
+    · have : eomMark m (Op.disableEom n corr) = none := by
+        simp only [eomMark]; rw [if_neg (fun h => hmn h.symm)]
+      rw [if_neg hmn, this]
+      exact hi m
+  | getDuration _ _ => simp [building] at hb
+  | estimate _ _ _ => simp [building] at hb
+  | phaseRef _ _ => simp [building] at hb
+
+/-- After any history of successful building calls from a fresh sequence the invariant holds. -/
+theorem preInv_runAll {k : Nat} {s s' : SeqState} {ops : List Op} (hi : PreInv s)
+    (hb : ∀ op ∈ ops, building op = true) (h : runAllFrom k s ops = .ok s') : PreInv s' := by
+  induction ops generalizing k s with
+  | nil => simp [runAllFrom] at h; subst h; exact hi
+  | cons op rest ih =>
+    unfold runAllFrom at h
+    cases he : (stepRaw s op).err with
+    | some e => rw [he] at h; cases h
+    | none =>
+      rw [he] at h
+      exact ih (preInv_step hi he (hb op List.mem_cons_self))
+        (fun o ho => hb o (List.mem_cons_of_mem _ ho)) h
+
+/-! ### What the success of a concrete call says about the state (inversion) -/
+
+theorem measured_none_of {s : SeqState} (g0 : ¬ s.measured.isSome = true) : s.measured = none := by
+  cases hm : s.measured with
+  | none => rfl
+  | some x => rw [hm] at g0; simp at g0
+
+theorem validateChannel_block {s : SeqState} {n : ChName} {c : ChanState}
+    (hv : s.validateChannel n true = .ok c) : s.getChan n = some c ∧ c.inEomMode = false := by
+  unfold SeqState.validateChannel at hv
+  cases hgc : s.getChan n with
+  | none => rw [hgc] at hv; cases hv
+  | some c0 =>
+    rw [hgc] at hv
+    simp only [Bool.true_and] at hv
+    by_cases hm : c0.inEomMode = true
+    · rw [if_pos hm] at hv; cases hv
+    · rw [if_neg hm] at hv
+      injection hv with hv
+      subst hv
+      exact ⟨rfl, by simpa using hm⟩
+
+theorem markNonEmpty_ok {r : Raw} (h : (markNonEmpty r).err = none) : r.err = none := by
+  unfold markNonEmpty at h
+  cases he : r.err with
+  | none => rfl
+  | some e => simp only [he] at h; exact h
+
+theorem validatePulse_sig {c c0 : ChanState} (h : sigX c = sigX c0) (σ : PulseSummary) :
+    validatePulse c σ = validatePulse c0 σ := by
+  unfold sigX at h
+  simp only [Prod.mk.injEq] at h
+  obtain ⟨_, h2, h3, h4, _⟩ := h
+  unfold validatePulse
+  rw [h2, h3, h4]
+
+theorem validateAndAdjust_sig {c c0 : ChanState} (h : sigX c = sigX c0) {p : PulseIn} {r : Option Rat}
+    {pr : PulseRec} (hok : validateAndAdjust c p r = .ok pr) (r' : Option Rat) :
+    ∃ pr', validateAndAdjust c0 p r' = .ok pr' := by
+  have hcfg : c.cfg = c0.cfg := by
+    unfold sigX at h; simp only [Prod.mk.injEq] at h; exact h.2.1
+  unfold validateAndAdjust at hok ⊢
+  rw [← validatePulse_sig h, ← hcfg]
+  cases hv : validatePulse c p.sum with
+  | error e => rw [hv] at hok; cases hok
+  | ok u =>
+    rw [hv] at hok
+    simp only at hok ⊢
+    cases hd : validateDuration c.cfg p.dur with
+    | error e => rw [hd] at hok; cases hok
+    | ok d =>
+      rw [hd] at hok
+      simp only at hok ⊢
+      split at hok
+      · cases hok
+      · rename_i hne
+        rw [if_neg hne]
+        exact ⟨_, rfl⟩
+
+theorem processEomParams_sig {c c0 : ChanState} (h : sigX c = sigX c0) (e : EomIn) :
+    processEomParams c e = processEomParams c0 e := by
+  unfold processEomParams
+  simp only [validatePulse_sig h]
+
+theorem target_guards {s : SeqState} {qs : List Nat} {n : ChName}
+    (hok : (stepRaw s (.target qs n)).err = none) :
+    s.measured = none ∧ ∃ c, s.getChan n = some c ∧ c.inEomMode = false ∧ qs.isEmpty = false ∧
+      c.cfg.isLocal = true ∧ overNat c.cfg.maxTargets qs.length = false ∧ qs.any (· ≥ s.nQ) = false := by
+  simp only [stepRaw] at hok
+  obtain ⟨h1, _, _⟩ := store_ok' hok
+  unfold targetCore at h1
+  by_cases g0 : s.measured.isSome = true
+  · rw [if_pos g0] at h1; simp [fail] at h1
+  · rw [if_neg g0] at h1
+    cases hv : s.validateChannel n true with
+    | error e => rw [hv] at h1; simp [fail] at h1
+    | ok c =>
+      rw [hv] at h1
+      simp only at h1
+      by_cases g1 : qs.isEmpty = true
+      · rw [if_pos g1] at h1; simp [fail] at h1
+      · rw [if_neg g1] at h1
+        by_cases g2 : (!c.cfg.isLocal) = true
+        · rw [if_pos g2] at h1; simp [fail] at h1
+        · rw [if_neg g2] at h1
+          by_cases g3 : overNat c.cfg.maxTargets qs.length = true
+          · rw [if_pos g3] at h1; simp [fail] at h1
+          · rw [if_neg g3] at h1
+            by_cases g4 : qs.any (· ≥ s.nQ) = true
+            · rw [if_pos g4] at h1; simp [fail] at h1
+            · obtain ⟨a, b⟩ := validateChannel_block hv
+              exact ⟨measured_none_of g0, c, a, b, by simpa using g1, by simpa using g2,
+                by simpa using g3, by simpa using g4⟩
+
+theorem addCore_guards {s : SeqState} {p : PulseIn} {n : ChName} {proto : Option Protocol}
+    {drift : Option Drift} (hok : (addCore s p n proto drift).err = none) :
+    proto.isSome = true ∧ ∃ c, s.getChan n = some c ∧ ∃ r pr, validateAndAdjust c p r = .ok pr := by
+  unfold addCore at hok
+  cases proto with
+  | none => simp [fail] at hok
+  | some pr0 =>
+    simp only at hok
+    cases hc : s.getChan n with
+    | none => rw [hc] at hok; simp [fail] at hok
+    | some c =>
+      rw [hc] at hok
+      simp only at hok
+      cases hl : c.last with
+      | error e => rw [hl] at hok; simp [fail] at hok
+      | ok last =>
+        rw [hl] at hok
+        simp only at hok
+        split at hok
+        · simp [fail] at hok
+        · cases hv : validateAndAdjust c p (if c.cfg.isDmm = true then none else
+              (s.lastPhases c.cfg.basis last.targets).head?) with
+          | error e => rw [hv] at hok; simp [fail] at hok
+          | ok pr => exact ⟨rfl, c, rfl, _, pr, hv⟩
+
+theorem add_guards {s : SeqState} {p : PulseIn} {n : ChName} {proto : Option Protocol}
+    (hok : (stepRaw s (.add p n proto)).err = none) :
+    s.measured = none ∧ proto.isSome = true ∧ ∃ c, s.getChan n = some c ∧ c.inEomMode = false ∧
+      c.cfg.isDmm = false ∧ ∃ r pr, validateAndAdjust c p r = .ok pr := by
+  simp only [stepRaw] at hok
+  obtain ⟨h1, _, _⟩ := store_ok' hok
+  have h1 := markNonEmpty_ok h1
+  by_cases g0 : s.measured.isSome = true
+  · rw [if_pos g0] at h1; simp [fail] at h1
+  · rw [if_neg g0] at h1
+    cases hv : s.validateChannel n true with
+    | error e => rw [hv] at h1; simp [fail] at h1
+    | ok c =>
+      rw [hv] at h1
+      simp only at h1
+      by_cases g1 : c.cfg.isDmm = true
+      · rw [if_pos g1] at h1; simp [fail] at h1
+      · rw [if_neg g1] at h1
+        obtain ⟨a, b⟩ := validateChannel_block hv
+        obtain ⟨hp, c', hc', r, pr, hva⟩ := addCore_guards h1
+        rw [a] at hc'; injection hc' with hc'; subst hc'
+        exact ⟨measured_none_of g0, hp, c, a, b, by simpa using g1, r, pr, hva⟩
+
+theorem addDmm_guards {s : SeqState} {p : PulseIn} {n : ChName} {proto : Option Protocol}
+    (hok : (stepRaw s (.addDmm p n proto)).err = none) :
+    s.measured = none ∧ proto.isSome = true ∧ ∃ c, s.getChan n = some c ∧
+      c.cfg.isDmm = true ∧ ∃ r pr, validateAndAdjust c p r = .ok pr := by
+  simp only [stepRaw] at hok
+  obtain ⟨h1, _, _⟩ := store_ok' hok
+  have h1 := markNonEmpty_ok h1
+  by_cases g0 : s.measured.isSome = true
+  · rw [if_pos g0] at h1; simp [fail] at h1
+  · rw [if_neg g0] at h1
+    cases hv : s.validateChannel n false with
+    | error e => rw [hv] at h1; simp [fail] at h1
+    | ok c =>
+      rw [hv] at h1
+      simp only at h1
+      by_cases g1 : (!c.cfg.isDmm) = true
+      · rw [if_pos g1] at h1; simp [fail] at h1
+      · rw [if_neg g1] at h1
+        obtain ⟨_, a⟩ := validateChannel_modeOf hv
+        obtain ⟨hp, c', hc', r, pr, hva⟩ := addCore_guards h1
+        rw [a] at hc'; injection hc' with hc'; subst hc'
+        exact ⟨measured_none_of g0, hp, c, a, by simpa using g1, r, pr, hva⟩
+
+theorem validateAndAdjust_dur {c : ChanState} {p : PulseIn} {r : Option Rat} {pr : PulseRec}
+    (h : validateAndAdjust c p r = .ok pr) : ∃ d, validateDuration c.cfg p.dur = .ok d := by
+  unfold validateAndAdjust at h
+  cases hv : validatePulse c p.sum with
+  | error e => rw [hv] at h; cases h
+  | ok u =>
+    rw [hv] at h
+    simp only at h
+    cases hd : validateDuration c.cfg p.dur with
+    | error e => rw [hd] at h; cases h
+    | ok d => exact ⟨d, rfl⟩
+
+theorem addEom_guards {s : SeqState} {n : ChName} {dur : Nat} {ph po : Rat} {proto : Option Protocol}
+    {corr : Bool} {fs fe ref : Nat}
+    (hok : (stepRaw s (.addEom n dur ph po proto corr fs fe ref)).err = none) :
+    s.measured = none ∧ proto.isSome = true ∧ ∃ c, s.getChan n = some c ∧ c.inEomMode = true ∧
+      ∃ d, validateDuration c.cfg dur = .ok d := by
+  simp only [stepRaw] at hok
+  obtain ⟨h1, _, _⟩ := store_ok' hok
+  have h1 := markNonEmpty_ok h1
+  by_cases g0 : s.measured.isSome = true
+  · rw [if_pos g0] at h1; simp [fail] at h1
+  · rw [if_neg g0] at h1
+    cases hv : s.validateChannel n false with
+    | error e => rw [hv] at h1; simp [fail] at h1
+    | ok c =>
+      rw [hv] at h1
+      simp only at h1
+      cases hb : c.eom.getLast? with
+      | none => rw [hb] at h1; simp [fail] at h1
+      | some b =>
+        rw [hb] at h1
+        simp only at h1
+        by_cases g1 : b.tf.isSome = true
+        · rw [if_pos g1] at h1; simp [fail] at h1
+        · rw [if_neg g1] at h1
+          obtain ⟨_, a⟩ := validateChannel_modeOf hv
+          obtain ⟨hp, c', hc', r, pr, hva⟩ := addCore_guards h1
+          rw [a] at hc'; injection hc' with hc'; subst hc'
+          obtain ⟨d, hd⟩ := validateAndAdjust_dur hva
+          refine ⟨measured_none_of g0, hp, c, a, ?_, d, hd⟩
+          unfold ChanState.inEomMode
+          rw [hb]
+          cases htf : b.tf with
+          | none => rfl
+          | some x => rw [htf] at g1; simp at g1
+
+theorem delay_guards {s : SeqState} {d : Int} {n : ChName} {atRest : Bool}
+    (hok : (stepRaw s (.delay d n atRest)).err = none) :
+    s.measured = none ∧ ∃ c, s.getChan n = some c := by
+  simp only [stepRaw] at hok
+  obtain ⟨h1, _, _⟩ := store_ok' hok
+  unfold delayCore at h1
+  by_cases g0 : s.measured.isSome = true
+  · rw [if_pos g0] at h1; simp [fail] at h1
+  · rw [if_neg g0] at h1
+    cases hv : s.validateChannel n false with
+    | error e => rw [hv] at h1; simp [fail] at h1
+    | ok c => exact ⟨measured_none_of g0, c, (validateChannel_modeOf hv).2⟩
+
+theorem align_guards {s : SeqState} {chs : List ChName} {atRest : Bool}
+    (hok : (stepRaw s (.align chs atRest)).err = none) :
+    s.measured = none ∧ chs.any (fun n => (s.getChan n).isNone) = false ∧
+      chs.eraseDups.length = chs.length ∧ ¬ chs.length < 2 := by
+  simp only [stepRaw] at hok
+  obtain ⟨h1, _, _⟩ := store_ok' hok
+  by_cases g0 : s.measured.isSome = true
+  · rw [if_pos g0] at h1; simp [fail] at h1
+  · rw [if_neg g0] at h1
+    by_cases g1 : chs.any (fun n => (s.getChan n).isNone) = true
+    · rw [if_pos g1] at h1; simp [fail] at h1
+    · rw [if_neg g1] at h1
+      by_cases g2 : chs.eraseDups.length ≠ chs.length
+      · rw [if_pos g2] at h1; simp [fail] at h1
+      · rw [if_neg g2] at h1
+        by_cases g3 : chs.length < 2
+        · rw [if_pos g3] at h1; simp [fail] at h1
+        · exact ⟨measured_none_of g0, by simpa using g1, by simpa using g2, g3⟩
+
+theorem phaseShift_guards {s : SeqState} {phi : Rat} {qs : List Nat} {b : Basis}
+    (hok : (stepRaw s (.phaseShift phi qs b)).err = none) :
+    (s.getRefs b).isSome = true ∧ (qs.isEmpty = false → qs.any (· ≥ s.nQ) = false) := by
+  simp only [stepRaw] at hok
+  obtain ⟨h1, _, _⟩ := store_ok' hok
+  unfold SeqState.phaseShift at h1
+  by_cases g0 : (s.getRefs b).isNone = true
+  · rw [if_pos g0] at h1; simp [fail] at h1
+  · rw [if_neg g0] at h1
+    refine ⟨by cases hh : s.getRefs b <;> simp_all, ?_⟩
+    intro hne
+    simp only [hne, Bool.false_eq_true, if_false] at h1
+    by_cases g1 : qs.any (· ≥ s.nQ) = true
+    · rw [if_pos g1] at h1; simp [fail] at h1
+    · simpa using g1
 
 end Param
 end Pulser
